@@ -457,4 +457,103 @@ theorem unpivot_pivotTable (x : List String) (y z : String) (xg ys : List Grp) (
   rw [List.map_map]
   rfl
 
+/-! ### the shape of a successful `pivot` -/
+
+theorem optMapM_inv {α β} (F : α → Option β) (d : β) : ∀ (l : List α) (r : List β),
+    l.mapM F = some r → r = l.map (fun a => (F a).getD d) ∧ ∀ a ∈ l, (F a).isSome = true
+  | [], r, h => by
+    simp at h; subst h; simp
+  | a :: l, r, h => by
+    rw [List.mapM_cons] at h
+    cases hF : F a with
+    | none => simp [hF] at h
+    | some b =>
+      cases hr : l.mapM F with
+      | none => simp [hF, hr] at h
+      | some bs =>
+        simp [hF, hr] at h
+        obtain ⟨h1, h2⟩ := optMapM_inv F d l bs hr
+        subst h
+        constructor
+        · simp [hF, ← h1]
+        · intro a' ha'
+          rcases List.mem_cons.1 ha' with rfl | ha''
+          · simp [hF]
+          · exact h2 a' ha''
+
+/-- the column label of a y-group -/
+def labOf (gy : Grp) : String := (yLabel (tupleGet 0 gy.1)).getD ""
+
+/-- a successful `pivot`: every y-group has a label, the column names are distinct, and the table -/
+theorem pivot_ok_shape (t : Table) (x : List String) (y z : String) (agg : Agg) (zs : List Cell)
+    (p : VTable) (hn : t.nrows ≠ 0) (hx : x ≠ [])
+    (hcols : ∀ k ∈ x ++ [y], (t.col? k).isSome = true) (hz : t.col? z = some zs)
+    (hp : t.pivot x y z agg = some (.ok p)) :
+    let xyg := listbyG (xyKeys t.nrows (xCells t x) (yCell t y))
+    let xg := listbyG (xyg.map fun g => xPart x.length g.1)
+    let ys := listbyG ((xyg.map fun g => tupleGet x.length g.1).map fun v => .tuple [v])
+    (∀ gy ∈ ys, (yLabel (tupleGet 0 gy.1)).isSome = true) ∧ (x ++ ys.map labOf).Nodup ∧
+    p = keyColsOf x xg ++ ys.map fun gy =>
+      (labOf gy, xg.map fun gx => pivotCell xyg x.length zs agg gx.2 gy.1) := by
+  intro xyg xg ys
+  have hx' : x.isEmpty = false := by cases x <;> simp_all
+  have hk := keysOf_xy t x y hcols
+  simp only [Table.pivot, hn, hx', or_self, Bool.false_eq_true, if_false, hk, hz] at hp
+  cases hm : ys.mapM (fun g => yLabel (tupleGet 0 g.1)) with
+  | none =>
+    simp only [xyg, ys] at hm
+    rw [hm] at hp
+    cases hp
+  | some labels =>
+    obtain ⟨hl, hsome⟩ := optMapM_inv _ "" ys labels hm
+    have hl' : labels = ys.map labOf := hl
+    simp only [xyg, ys] at hm
+    rw [hm] at hp
+    simp only at hp
+    split at hp
+    · cases hp
+    · rename_i hnd
+      have hnd' : (x ++ labels).Nodup := by simpa using hnd
+      refine ⟨hsome, by rw [← hl']; exact hnd', ?_⟩
+      injection hp with hp
+      injection hp with hp
+      rw [← hp]
+      congr 1
+      rw [hl', ← List.map_prod_right_eq_zip, List.map_map]
+      rfl
+
+/-! ### labels -/
+
+theorem cmp_cell1 (a b : Cell) : cmp (.tuple [.cell a]) (.tuple [.cell b]) = Cell.cmp a b := by
+  simp [cmp, Val.norm, normList, cmpN, cmpArr]
+
+/-- `cmp`-equal y values that both have a label have the same label -/
+theorem yLabel_congr {a b : Val} {s s' : String} (h : cmp (.tuple [a]) (.tuple [b]) = .eq)
+    (ha : yLabel a = some s) (hb : yLabel b = some s') : s = s' := by
+  unfold yLabel at ha hb
+  split at ha <;> split at hb <;>
+    simp_all [cmp_cell1, Cell.cmp, Cell.cmpSame, Cell.rank, Cell.num, Cell.skey]
+  rename_i n1 _ n2
+  have : n1 = n2 := by omega
+  subst this
+  exact ha.symm.trans hb
+
+theorem eq_of_nodup_map {α β} {f : α → β} : ∀ {l : List α}, (l.map f).Nodup →
+    ∀ a ∈ l, ∀ b ∈ l, f a = f b → a = b
+  | [], _, a, ha, _, _, _ => by cases ha
+  | c :: l, h, a, ha, b, hb, hab => by
+    simp only [List.map_cons, List.nodup_cons] at h
+    rcases List.mem_cons.1 ha with rfl | ha' <;> rcases List.mem_cons.1 hb with rfl | hb'
+    · rfl
+    · exact absurd (hab ▸ List.mem_map_of_mem hb') h.1
+    · exact absurd (hab ▸ List.mem_map_of_mem ha') h.1
+    · exact eq_of_nodup_map h.2 a ha' b hb' hab
+
+theorem zipIdx_tupleGet {α} (x : List α) (vs : List Val) (h : vs.length = x.length) :
+    (x.zipIdx.map fun kj => tupleGet kj.2 (.tuple vs)) = vs := by
+  apply List.ext_getElem
+  · simp [h]
+  · intro i h1 h2
+    simp [tupleGet, List.getD_eq_getElem?_getD, h2]
+
 end Pyg
